@@ -257,7 +257,12 @@ def shrink(inst, fails):
         if cur["m"] > 1:
             cands += [drop_hos(cur, h) for h in range(cur["m"])]
         for h in range(cur["m"]):
-            if cur["c"][h] > 1:
+            if cur["c"][h] > cur["n"] + 1:
+                # an "unlimited" capacity (sys.maxsize) is first brought down to just above the number of residents in one step
+                c2 = cur["c"][:]
+                c2[h] = cur["n"] + 1
+                cands.append(dict(cur, c=c2))
+            elif cur["c"][h] > 1:
                 c2 = cur["c"][:]
                 c2[h] -= 1
                 cands.append(dict(cur, c=c2))
